@@ -171,6 +171,10 @@ func c15Cases(c *ctx) []c15Case {
 		add("cycle-through-nullable", "grammar cyc;\nstart = aa;\naa = [\"x\"] bb {\"y\"} | \"a\";\nbb = aa | \"b\";\n")
 		add("self-loop-late", "grammar cyc;\nstart = \"s\" zz;\nzz = zz | \"z\";\n")
 	}
+	add("keywords-in-both-cases", "grammar sql;\nID = /[a-z_]+[0-9]*/\nstart = {\"select\" | \"SELECT\" | \"Select\" | \"from\" | \"FROM\" | \"where\" | \"WHERE\" | \"wHERE\" | \"ab\" | \"AB\" | \"aB\" | \"Ab\" | ID};\n")
+	add("tokens-differing-in-case-of-value", "grammar cs;\nTA = \"end\"\nTB = \"END\"\nTC = \"End\"\nTD = /e+nd/\nstart = {TA | TB | TC | TD | \"eND\" | \"enD\"};\n")
+	add("sixteen-undefined-non-terminals", "grammar draft;\nstart = n01 n02 n03 n04 | n05 n06 n07 n08 | n09 n10 n11 n12 | n13 n14 n15 n16 | zz aa mm;\n")
+	add("twenty-undefined-tokens", "grammar draft;\nstart = T01 T02 T03 T04 T05 T06 T07 T08 T09 T10 | T11 T12 T13 T14 T15 T16 T17 T18 T19 T20;\n")
 	add("no-start", "grammar g;\na = b; b = c; c = \"x\";\n")
 	r := c.rng("gen")
 	for i := 0; i < c.n(12, 150); i++ {
